@@ -34,6 +34,9 @@ SCRIPTS_QUICK = [
     # EVERY negative timeout means "no timeout", not only -1
     "W32:%d:0:-2|N:%d:1" % (A, A),
     "W64:%d:0:-9223372036854775808|W32:%d:0:-1000000000|N:%d:2" % (C, C, C),
+    # a time-out of zero is a time-out like any other: the cell is compared first (1 when it differs), an equal cell gives 2 at once
+    "W32:%d:7:0|S:%d:7;N:%d:1" % (A, A, A),
+    "W64:%d:5:0;W64:%d:0:0|N:%d:1" % (C, C, C),
     # the host runs out of memory inside a wait (k-th allocation of the call fails; 9: its condition variable cannot be made): the call
     # traps and nothing else changes - waiters already asleep on the same address or in the same bucket are still found afterwards
     "W32:%d:0:-1|X32:%d:0:-1:1;N:%d:1;N:%d:1" % (A, A, A, A),
